@@ -153,7 +153,3 @@ def big_file_case(ctx, out, rng):
 def search(ctx):
     return run(ctx)
 
-
-def replay(ctx, path):
-    print(open(path).read()[:3000])
-    return 0
